@@ -197,6 +197,16 @@ def gen_spec(rng):
     colw = {j: total * w[j] / sum(dw) for j in disp}
     grouping = set(body.get("page_by") or []) | set(body.get("subline_by") or [])
     keyj = spec["_meta"]["key"]
+    if body.get("page_by") and rng.random() < 0.12:
+        # a group value spelled ALMOST like the divider is an ordinary value: its heading row is rendered and
+        # has to be budgeted
+        pick = rng.choice(body["page_by"])
+        c = next(c for c in cols if c["name"] == pick)
+        labels = sorted({v for v in c["values"] if isinstance(v, str) and v.strip() and v != E.DIVIDER})
+        if labels:
+            tgt = rng.choice(labels)
+            alt = rng.choice(["----- ", " -----", "------", "----"])
+            c["values"] = [alt if v == tgt else v for v in c["values"]]
     if wide:
         # many columns of very different widths holding the SAME or nearly the same text in one row (the text,
         # and the text behind one more digit): what a cell needs depends on its column, not on its text alone
@@ -281,8 +291,9 @@ def check_spec(ctx, spec, hook):
     hdr = spec.get("colheader", "default")
     levels = len(body.get("page_by") or [])
     worst = None
+    extra = E.extra_roles(spec)
     for p, pg in enumerate(doc.pages):
-        roles = E.page_roles(pg)
+        roles = E.page_roles(pg, extra)
         if any(r is None for r, _ in roles):
             ctx.violation(f"unclassifiable block on page {p + 1}", case, {"page": p})
             return
